@@ -24,6 +24,7 @@ import (
 	"time"
 
 	"github.com/veesix-networks/osvbng/pkg/config"
+	"github.com/veesix-networks/osvbng/pkg/config/interfaces"
 	"github.com/veesix-networks/osvbng/pkg/config/subscriber"
 	conf "github.com/veesix-networks/osvbng/pkg/handlers/conf"
 	"github.com/veesix-networks/osvbng/pkg/handlers/conf/paths"
@@ -47,6 +48,8 @@ type c13Env struct {
 	trace     []string
 	applyN    int // Apply calls seen in the current commit
 	applyFail int // fail the k-th Apply (0 = never)
+	rbN       int // Rollback calls seen in the current commit
+	rbFail    int // the k-th Rollback call returns an error (0 = never)
 	valFail   bool
 	frrLog    string
 	frrCtl    string
@@ -102,6 +105,11 @@ func (h *c13Handler) Apply(ctx context.Context, hctx *conf.HandlerContext) error
 func (h *c13Handler) Rollback(ctx context.Context, hctx *conf.HandlerContext) error {
 	h.env.mu.Lock()
 	defer h.env.mu.Unlock()
+	h.env.rbN++
+	if h.env.rbFail != 0 && h.env.rbN == h.env.rbFail {
+		h.env.trace = append(h.env.trace, "R!"+hctx.Path+"="+c13Val(hctx.NewValue))
+		return fmt.Errorf("injected rollback failure")
+	}
 	h.env.trace = append(h.env.trace, "R:"+hctx.Path+"="+c13Val(hctx.NewValue))
 	return nil
 }
@@ -127,8 +135,13 @@ func c13Walk(prefix string, v reflect.Value, out map[string]bool) {
 		t := v.Type()
 		for i := 0; i < t.NumField(); i++ {
 			tag := strings.Split(t.Field(i).Tag.Get("json"), ",")[0]
-			if tag == "" || tag == "-" || !t.Field(i).IsExported() {
+			if !t.Field(i).IsExported() {
 				continue
+			}
+			if tag == "" || tag == "-" {
+				// not serialised (json:"-": LCP, SubscriberAccess, MSSClamp, PWTransport) or untagged:
+				// still part of the configuration object; shown as "~<field name>"
+				tag = "~" + strings.ToLower(t.Field(i).Name)
 			}
 			p := tag
 			if prefix != "" {
@@ -159,8 +172,19 @@ func c13Walk(prefix string, v reflect.Value, out map[string]bool) {
 			c13Walk(p, e, out)
 		}
 	case reflect.Slice, reflect.Array:
-		if v.Len() > 0 {
-			out[prefix+"=l"+strconv.Itoa(v.Len())] = true
+		for i := 0; i < v.Len(); i++ {
+			p := prefix + "." + strconv.Itoa(i)
+			u := v.Index(i)
+			for u.Kind() == reflect.Interface || u.Kind() == reflect.Ptr {
+				if u.IsNil() {
+					break
+				}
+				u = u.Elem()
+			}
+			if u.Kind() == reflect.Struct || u.Kind() == reflect.Map {
+				out[p+"/"] = true
+			}
+			c13Walk(p, v.Index(i), out)
 		}
 	case reflect.String:
 		if v.String() != "" {
@@ -197,7 +221,7 @@ func c13Project(cfg *config.Config) string {
 	c13Walk("", reflect.ValueOf(cfg).Elem(), m)
 	var l []string
 	for k := range m {
-		if strings.HasPrefix(k, "subscriber-groups") || k == "plugins/" {
+		if k == "plugins/" {
 			continue
 		}
 		// plugin namespaces are addressed without the "plugins." prefix
@@ -331,10 +355,10 @@ func c13Err(err error) string {
 	return "othererr"
 }
 
-type c13State struct{ comps [8]string }
+type c13State struct{ comps [9]string }
 
-func (cd *ConfigManager) c13Snapshot(goodStartup, goodVerDir string) [8]string {
-	var s [8]string
+func (cd *ConfigManager) c13Snapshot(goodStartup, goodVerDir string) [9]string {
+	var s [9]string
 	r, _ := cd.GetRunning()
 	st, _ := cd.GetStartup()
 	s[0] = c13Project(r)
@@ -366,10 +390,18 @@ func (cd *ConfigManager) c13Snapshot(goodStartup, goodVerDir string) [8]string {
 	s[5] = c13Versions(vs)
 	s[6] = c13VersionFiles(goodVerDir)
 	s[7] = strconv.FormatUint(cd.nextSessionID, 10)
+	// D: what the routing daemon runs — nothing loaded yet / the rendering of the running config / something else
+	s[8] = "none"
+	if data, err := os.ReadFile(filepath.Join(filepath.Dir(goodStartup), "frr.applied")); err == nil {
+		s[8] = "other"
+		if txt, err := cd.frrConfig.GenerateConfig(r); err == nil && txt == string(data) {
+			s[8] = "run"
+		}
+	}
 	return s
 }
 
-var c13Names = [8]string{"R", "S", "F", "C", "L", "V", "W", "N"}
+var c13Names = [9]string{"R", "S", "F", "C", "L", "V", "W", "N", "D"}
 
 func c13RunCase(line string, root string, idx int, templates string) (res string) {
 	defer func() {
@@ -393,11 +425,29 @@ func c13RunCase(line string, root string, idx int, templates string) (res string
 	defer os.RemoveAll(dir)
 	env := &c13Env{frrLog: filepath.Join(dir, "frr.log"), frrCtl: filepath.Join(dir, "frr.ctl")}
 	script := filepath.Join(dir, "frr-reload.sh")
-	// the script records the mode it was called with and fails when the control file names that mode
-	body := "#!/bin/sh\necho \"$1\" >> " + env.frrLog + "\nif grep -q -- \"$1\" " + env.frrCtl + " 2>/dev/null; then exit 1; fi\nexit 0\n"
+	// The routing daemon: a script that records the mode it was called with.  A line "--test" / "--reload" in
+	// the control file makes that call fail once (the line is consumed); "--reload-partial" makes the reload
+	// fail AFTER the daemon has taken the candidate (frr-reload.py applies its diff line by line).  A reload
+	// that takes effect copies the rendered candidate to frr.applied = the configuration the daemon runs.
+	applied := filepath.Join(dir, "frr.applied")
+	body := "#!/bin/sh\nCTL=" + env.frrCtl + "\necho \"$1\" >> " + env.frrLog + "\n" +
+		"consume() { grep -v -x -- \"$1\" $CTL > $CTL.tmp; mv $CTL.tmp $CTL; }\n" +
+		"if [ \"$1\" = \"--reload\" ] && grep -q -x -- --reload-partial $CTL 2>/dev/null; then consume --reload-partial; cp \"$2\" " + applied + "; exit 1; fi\n" +
+		"if grep -q -x -- \"$1\" $CTL 2>/dev/null; then consume \"$1\"; exit 1; fi\n" +
+		"if [ \"$1\" = \"--reload\" ]; then cp \"$2\" " + applied + "; fi\nexit 0\n"
 	if err := os.WriteFile(script, []byte(body), 0755); err != nil {
 		return "harness-error script"
 	}
+	// rendering: every scalar of every protocols.* section, so that two configurations render equal iff
+	// their protocols subtrees are equal (the real templates skip sections that are not enabled)
+	templates = filepath.Join(dir, "tmpl")
+	os.MkdirAll(filepath.Join(templates, "frr"), 0755)
+	os.WriteFile(filepath.Join(templates, "frr", "none.tmpl"), []byte("{{define \"none\"}}{{end}}"), 0644)
+	os.WriteFile(filepath.Join(templates, "frr.conf.tmpl"), []byte(
+		"{{with .Protocols.BGP}}bgp {{printf \"%+v\" .}}\n{{end}}{{with .Protocols.OSPF}}ospf {{printf \"%+v\" .}}\n{{end}}"+
+			"{{with .Protocols.OSPF6}}ospf6 {{printf \"%+v\" .}}\n{{end}}{{with .Protocols.ISIS}}isis {{printf \"%+v\" .}}\n{{end}}"+
+			"{{with .Protocols.Static}}static {{printf \"%+v\" .}}\n{{end}}{{with .Protocols.MPLS}}mpls {{printf \"%+v\" .}}\n{{end}}"+
+			"{{with .Protocols.LDP}}ldp {{printf \"%+v\" .}}\n{{end}}"), 0644)
 	cd := NewConfigManager()
 	cd.frrConfig.ReloadCmd = script
 	cd.frrConfig.TemplateDir = templates
@@ -446,6 +496,17 @@ func c13RunCase(line string, root string, idx int, templates string) (res string
 		cd.refreshMixedAccessSet()
 		cd.refreshSGSnapshot()
 	}
+	// optional: a running configuration with everything deepCopyConfig special-cases and the validators read:
+	// hidden (json:"-") flags on an interface and its subinterfaces, an autoconfig-derived subinterface
+	// (SubscriberAccess), an MSS clamp spec, and two subscriber groups that do ("deep 1") or do not ("deep 0")
+	// claim the same (S-VLAN, C-VLAN)
+	if p < len(f) && f[p] == "deep" {
+		cd.runningConfig = c13DeepConfig(f[p+1] == "1")
+		cd.startupConfig = cd.deepCopyConfig(cd.runningConfig)
+		cd.refreshMixedAccessSet()
+		cd.refreshSGSnapshot()
+		p += 2
+	}
 	// optional: bring the manager up from a startup file carrying a registered plugin namespace
 	//   "plugin typed|prod <message> <limit>"   typed: running is what LoadYAML returned (typed pointer in
 	//   cfg.Plugins); prod: running is cd.startupConfig, as ApplyLoadedConfig does it
@@ -471,6 +532,9 @@ func c13RunCase(line string, root string, idx int, templates string) (res string
 		}
 		cd.refreshMixedAccessSet()
 		cd.refreshSGSnapshot()
+	}
+	if p+1 < len(f) && f[p] == "init" { // the model's initial store; the harness builds it from the recipe
+		p += 2
 	}
 	if conc {
 		c13Envs.Store(cd, env)
@@ -542,12 +606,19 @@ func c13RunCase(line string, root string, idx int, templates string) (res string
 				flags = fault[i+1:]
 			}
 			env.applyN, env.applyFail = 0, k
+			env.rbN, env.rbFail = 0, 0
+			if i := strings.Index(flags, "q"); i >= 0 && i+1 < len(flags) {
+				env.rbFail = int(flags[i+1] - '0')
+			}
 			ctl := ""
 			if strings.Contains(flags, "t") {
 				ctl += "--test\n"
 			}
 			if strings.Contains(flags, "r") {
 				ctl += "--reload\n"
+			}
+			if strings.Contains(flags, "R") {
+				ctl += "--reload-partial\n"
 			}
 			os.WriteFile(env.frrCtl, []byte(ctl), 0644)
 			os.Remove(env.frrLog)
@@ -560,7 +631,8 @@ func c13RunCase(line string, root string, idx int, templates string) (res string
 			err := cd.Commit(sid(f[p+1]))
 			cd.startupConfigPath = goodStartup
 			cd.versionDir = goodVerDir
-			env.applyFail = 0
+			env.applyFail, env.rbFail = 0, 0
+			os.WriteFile(env.frrCtl, nil, 0644)
 			r = c13Err(err)
 			// merge the routing-daemon calls into the trace: they happen after all Apply calls and
 			// before any Rollback call of the same commit, unless they come from a later restore
@@ -572,7 +644,7 @@ func c13RunCase(line string, root string, idx int, templates string) (res string
 			}
 			var tr []string
 			i := 0
-			for ; i < len(env.trace) && !strings.HasPrefix(env.trace[i], "R:"); i++ {
+			for ; i < len(env.trace) && !strings.HasPrefix(env.trace[i], "R:") && !strings.HasPrefix(env.trace[i], "R!"); i++ {
 				tr = append(tr, env.trace[i])
 			}
 			tr = append(tr, frr...)
@@ -708,6 +780,37 @@ var c13Envs sync.Map
 func (cd *ConfigManager) c13env() *c13Env {
 	v, _ := c13Envs.Load(cd)
 	return v.(*c13Env)
+}
+
+func c13DeepConfig(collide bool) *config.Config {
+	sv := "101"
+	if collide {
+		sv = "100"
+	}
+	y := fmt.Sprintf(`
+subscriber-groups:
+  groups:
+    a:
+      vlans:
+        - svlan: "100"
+          cvlan: any
+    b:
+      vlans:
+        - svlan: "%s"
+          cvlan: any
+`, sv)
+	cfg := &config.Config{}
+	if err := yaml.Unmarshal([]byte(y), cfg); err != nil {
+		panic("deep config: " + err.Error())
+	}
+	cfg.Interfaces = map[string]*interfaces.InterfaceConfig{
+		"eth1": {Name: "eth1", Enabled: true, LCP: true, Subinterfaces: interfaces.SubinterfaceMap{
+			"100": {ID: 100, VLAN: 100, Enabled: true, LCP: true, SubscriberAccess: true,
+				MSSClamp: &interfaces.MSSClampSpec{Enabled: true, IPv4MSS: 1400, IPv6MSS: 1380}},
+			"200": {ID: 200, VLAN: 200, Description: "op", LCP: true},
+		}},
+	}
+	return cfg
 }
 
 func c13GuardConfig(ifn string, mru uint16) *config.Config {
